@@ -449,19 +449,21 @@ def agg_blocks(tier, heavy=False):
     """(label, nk, key pool, min rows, max rows, plan) ; plan:
        'full+rot'   : one case with all six built-ins + apply, one case with a rotating subset
        'full'       : one case with all six built-ins + apply
+       'rot'        : one case with a subset of the built-ins rotating with the table index
+                      (all 64 subsets, apply on/off alternating every 64 tables)
+       'subsets-light': every subset of the built-ins, apply alternating
        'subsets'    : every subset of the built-ins x apply on/off"""
     if tier == 'quick':
         if heavy:
             return [
                 ('1key', 1, POOL1, 0, 3, 'full+rot'),
-                ('1key-4rows', 1, POOL1, 4, 4, 'full'),
-                ('1key-subsets', 1, POOL1, 0, 2, 'subsets-light'),
+                ('1key-4rows', 1, POOL1, 4, 4, 'rot'),
                 ('2key-pool5', 2, POOL2_5, 0, 3, 'full'),
-                ('2key-full', 2, POOL2_FULL, 0, 2, 'full'),
+                ('2key-full', 2, POOL2_FULL, 0, 2, 'rot'),
             ]
         return [
             ('1key', 1, POOL1, 0, 4, 'full+rot'),
-            ('1key-subsets', 1, POOL1, 0, 2, 'subsets'),
+            ('1key-subsets', 1, POOL1, 0, 2, 'subsets-light'),
             ('2key-pool5', 2, POOL2_5, 0, 3, 'full'),
             ('2key-full', 2, POOL2_FULL, 0, 2, 'full+rot'),
         ]
@@ -469,12 +471,13 @@ def agg_blocks(tier, heavy=False):
         return [
             ('1key', 1, POOL1, 0, 4, 'full+rot'),
             ('1key-subsets', 1, POOL1, 0, 2, 'subsets'),
-            ('2key-pool5', 2, POOL2_5, 0, 4, 'full'),
+            ('2key-pool5', 2, POOL2_5, 0, 4, 'rot'),
             ('2key-full', 2, POOL2_FULL, 0, 3, 'full'),
         ]
     return [
         ('1key', 1, POOL1, 0, 4, 'full+rot'),
-        ('1key-subsets', 1, POOL1, 0, 3, 'subsets'),
+        ('1key-subsets', 1, POOL1, 0, 3, 'subsets-light'),
+        ('1key-subsets', 1, POOL1, 0, 2, 'subsets'),
         ('2key-pool5', 2, POOL2_5, 0, 4, 'full+rot'),
         ('2key-full', 2, POOL2_FULL, 0, 3, 'full+rot'),
     ]
@@ -488,7 +491,7 @@ def agg_cases(tier, op, heavy=False):
             base = {'op': op, 'block': label, 'nk': nk, 'rows': rows}
             if plan in ('full', 'full+rot'):
                 yield dict(base, mode=MODES[idx % 3], aggs=list(AGGS), apply=True)
-            if plan == 'full+rot':
+            if plan in ('full+rot', 'rot'):
                 sub = ALL_SUBSETS[idx % 64]
                 yield dict(base, mode=MODES[(idx // 3) % 3], aggs=list(sub), apply=bool((idx // 64) % 2))
             if plan == 'subsets':
